@@ -4,6 +4,7 @@
 //	mutators: P k v -> -      D k -> v|none      Dm / DM -> k:v|none      DA -> -
 //	queries:  Sz E H G k  Mn Mx  F k  C k  Sel i  R k  Rg lo hi  RS lo hi  All  T o  TS o j  AS j   (TS/AS -> list;calls=<visitor calls>)
 //	          Any p  Allm p  Fm p  Sm p  Pm p  Eq <hist>  EqO <impl>
+//	          SW p / SWP p 0|1 -> list   (the history continues ON the SelectMatch / PartitionMatch result)
 //	          RgK lo hi / SmK p / PmK p (answer kept)   Chk -> kept answers re-read, joined by /   Scr -> - (kept answers overwritten)
 //	          K -> h=<Height()>;vlr=<Traverse VLR>;lvr=<Traverse LVR>;dump=<hook: pre-order nodes k:v:size:height:colour:LR>
 //	lists are k:v,k:v,... ([] when empty); p is a predicate id (see pred); hist is P2:20,D4,Dm,DM,DA
@@ -82,6 +83,9 @@ func pred(id int) generic.Predicate2[int, int] {
 		return func(k, v int) bool { return (k+v)&1 == 1 }
 	case 6:
 		return func(k, v int) bool { return k&3 == 0 }
+	}
+	if id >= 1000 { // threshold predicates: the selection is the keys below id-1000
+		return func(k, v int) bool { return k < id-1000 }
 	}
 	return func(k, v int) bool { return k < 4 }
 }
@@ -198,12 +202,13 @@ func pairsOf(kvs []generic.KeyValue[int, int]) string {
 	return l.String()
 }
 
-func exec(t table, ks *kept, impl, cmp, op string) (res string) {
+func exec(tp *table, ks *kept, impl, cmp, op string) (res string) {
 	defer func() {
 		if r := recover(); r != nil {
 			res = "PANIC"
 		}
 	}()
+	t := *tp
 	f := strings.Fields(op)
 	a := func(i int) int { v, _ := strconv.Atoi(f[i]); return v }
 	switch f[0] {
@@ -283,6 +288,24 @@ func exec(t table, ks *kept, impl, cmp, op string) (res string) {
 		ks.read = append(ks.read, func() string { return listOf(m) + ";" + listOf(u) })
 		ks.scribble = append(ks.scribble, func() { m.DeleteAll(); u.Put(-999, -999) })
 		return listOf(m) + ";" + listOf(u)
+	case "SW": // continue the history ON the result of SelectMatch (a table of its own)
+		c, ok := t.SelectMatch(pred(a(1))).(table)
+		if !ok {
+			return "not-an-ordered-table"
+		}
+		*tp = c
+		return listOf(c)
+	case "SWP": // ... on the matched (0) / unmatched (1) result of PartitionMatch
+		m, u := t.PartitionMatch(pred(a(1)))
+		c, ok := m.(table)
+		if a(2) == 1 {
+			c, ok = u.(table)
+		}
+		if !ok {
+			return "not-an-ordered-table"
+		}
+		*tp = c
+		return listOf(c)
 	case "Chk": // every kept answer, re-read now: an answer already given cannot change
 		if len(ks.read) == 0 {
 			return "-"
@@ -361,6 +384,7 @@ var (
 	hung        int
 	cpuDeadline = 10 * time.Second // CPU time the process may burn inside one case before it is declared hung
 	wallCap     = 15 * time.Minute // absolute cap (a goroutine blocked without burning CPU)
+	firstWait   = 2 * time.Second  // wall time before the slow path starts charging CPU time
 )
 
 // cpuTime is the CPU time (user+system) consumed by this process so far. The watchdog counts CPU
@@ -385,7 +409,7 @@ func tryRun(impl, cmp string, ops []string) ([]string, bool) {
 		t := mk(impl, cmp)
 		ks := &kept{}
 		for _, op := range ops {
-			r := exec(t, ks, impl, cmp, op)
+			r := exec(&t, ks, impl, cmp, op)
 			mu.Lock()
 			res = append(res, r)
 			mu.Unlock()
@@ -397,7 +421,7 @@ func tryRun(impl, cmp string, ops []string) ([]string, bool) {
 	timedOut := false
 	select {
 	case <-done:
-	case <-time.After(2 * time.Second):
+	case <-time.After(firstWait):
 		// slow path: poll, charging CPU time (already hung goroutines keep burning their share)
 		c0, t0 := cpuTime(), time.Now()
 		tick := time.NewTicker(250 * time.Millisecond)
@@ -622,6 +646,284 @@ func interleave(w *tr.W, cmps []string, universe, probes []int, maxLen int) {
 				rec(append(muts[:i:i], "DA"))
 			}
 			rec(nil)
+		}
+	}
+}
+
+// ---------------------------------------------------------------- adversarial AVL shapes
+
+// shp is a target shape; keys are assigned in order.
+type shp struct {
+	l, r *shp
+	key  int
+}
+
+func (s *shp) height() int {
+	if s == nil {
+		return 0
+	}
+	return 1 + max(s.l.height(), s.r.height())
+}
+
+func (s *shp) count() int {
+	if s == nil {
+		return 0
+	}
+	return 1 + s.l.count() + s.r.count()
+}
+
+func mirror(s *shp) *shp {
+	if s == nil {
+		return nil
+	}
+	return &shp{l: mirror(s.r), r: mirror(s.l)}
+}
+
+// complete tree of height h
+func complete(h int) *shp {
+	if h <= 0 {
+		return nil
+	}
+	return &shp{l: complete(h - 1), r: complete(h - 1)}
+}
+
+// minimal (Fibonacci) AVL tree of height h whose shorter side is always the left one
+func fib(h int) *shp {
+	if h <= 0 {
+		return nil
+	}
+	return &shp{l: fib(h - 2), r: fib(h - 1)}
+}
+
+// heavy(h): root with balance -1 over two complete trees (many keys, height drops after a rotation)
+func heavy(h int) *shp {
+	if h <= 0 {
+		return nil
+	}
+	return &shp{l: complete(h - 2), r: complete(h - 1)}
+}
+
+// sparse left spine of height h: every spine node leans right over a key-rich right subtree, so
+// that removing the minimum cascades rotations to the top and the height drops
+func sparseSpine(h int) *shp {
+	if h <= 0 {
+		return nil
+	}
+	return &shp{l: sparseSpine(h - 2), r: heavy(h - 1)}
+}
+
+var shapeKinds = []struct {
+	name string
+	mk   func(h int) *shp
+}{
+	{"fibL", fib},
+	{"fibR", func(h int) *shp { return mirror(fib(h)) }},
+	{"spineL", sparseSpine},
+	{"spineR", func(h int) *shp { return mirror(sparseSpine(h)) }},
+	{"heavyL", heavy},
+}
+
+func number(s *shp, next *int) {
+	if s == nil {
+		return
+	}
+	number(s.l, next)
+	s.key = *next
+	*next += 2
+	number(s.r, next)
+}
+
+// level-order insertion realises the target shape in an AVL tree without any rotation
+func levelOrder(s *shp) []int {
+	var ks []int
+	q := []*shp{s}
+	for len(q) > 0 {
+		n := q[0]
+		q = q[1:]
+		if n == nil {
+			continue
+		}
+		ks = append(ks, n.key)
+		q = append(q, n.l, n.r)
+	}
+	return ks
+}
+
+func minOf(s *shp) *shp {
+	for s.l != nil {
+		s = s.l
+	}
+	return s
+}
+func maxOf(s *shp) *shp {
+	for s.r != nil {
+		s = s.r
+	}
+	return s
+}
+
+// avlShapes: a node X whose subtrees are adversarial AVL shapes of heights hl and hr (X at the
+// root, or as a child of a root whose other side is a Fibonacci tree), then one deletion that must
+// rebalance on the way up, followed by a few more, with K after every step.
+func avlShapes(w *tr.W, heights []int, embeds, maxNodes int, allK bool, cmps []string, implsUsed []string) {
+	n := 0
+	for _, hl := range heights {
+		for _, dh := range []int{-1, 0, 1} {
+			hr := hl + dh
+			for _, lk := range shapeKinds {
+				for _, rk := range shapeKinds {
+					for embed := 0; embed < embeds; embed++ {
+						x := &shp{l: lk.mk(hl), r: rk.mk(hr)}
+						root := x
+						switch embed {
+						case 1:
+							root = &shp{l: x, r: mirror(fib(x.height() - 1))}
+						case 2:
+							root = &shp{l: fib(x.height() - 1), r: x}
+						}
+						if root.count() > maxNodes {
+							continue
+						}
+						next := 0
+						number(root, &next)
+						var build []string
+						for i, k := range levelOrder(root) {
+							build = append(build, fmt.Sprintf("P %d %d", k, k+i%3))
+						}
+						build = append(build, "K")
+						succ := minOf(x.r)
+						pred := maxOf(x.l)
+						var succParent *shp
+						for p := x.r; p != nil && p.l != nil; p = p.l {
+							succParent = p
+						}
+						targets := [][]string{
+							{fmt.Sprintf("D %d", x.key)},
+							{"Dm"}, {"DM"},
+							{fmt.Sprintf("D %d", succ.key)},
+							{fmt.Sprintf("D %d", pred.key)},
+							{fmt.Sprintf("D %d", root.key)},
+						}
+						if succParent != nil {
+							targets = append(targets, []string{fmt.Sprintf("D %d", succParent.key)})
+						}
+						for _, tg := range targets {
+							ops := append([]string(nil), build...)
+							ops = append(ops, tg...)
+							if allK {
+								ops = append(ops, "K", fmt.Sprintf("D %d", x.key), "K", "Dm", "K", "DM", "K", fmt.Sprintf("D %d", succ.key), "K", "Sz", "H")
+							} else {
+								ops = append(ops, "K", fmt.Sprintf("D %d", x.key), "Dm", "DM", fmt.Sprintf("D %d", succ.key), "K", "Sz", "H")
+							}
+							cmp := cmps[n%len(cmps)]
+							n++
+							for _, impl := range implsUsed {
+								runCase(w, impl, cmp, ops)
+							}
+						}
+					}
+				}
+			}
+		}
+	}
+}
+
+// selections: the result of SelectMatch / PartitionMatch is a table of its own; continue the
+// history on it (DeleteMin runs, Puts below the minimum, Delete in the upper half then Put in the
+// lower half), with queries and K after every step, for selection sizes 1..maxSel.
+func selections(w *tr.W, r *rng.R, maxSel int, cmps []string) {
+	n := 0
+	for s := 1; s <= maxSel; s++ {
+		for variant := 0; variant < 4; variant++ {
+			total := s + r.Range(0, 6)
+			var ops []string
+			for i, k := range insertionOrder(r, []int{4, 0, 1, 2}[variant], total) {
+				ops = append(ops, fmt.Sprintf("P %d %d", 2*k, 2*k+i%3))
+			}
+			switch variant {
+			case 3:
+				ops = append(ops, fmt.Sprintf("SWP %d 0", 1000+2*s))
+			case 2: // the unmatched half of a partition: keys >= threshold, s of them
+				ops = append(ops[:0:0], ops...)
+				ops = append(ops, fmt.Sprintf("SWP %d 1", 1000+2*(total-s)))
+			default:
+				ops = append(ops, fmt.Sprintf("SW %d", 1000+2*s))
+			}
+			ops = append(ops, "K", "Sz", "H", "Mn", "Mx")
+			lo := 0
+			if variant == 2 {
+				lo = 2 * (total - s)
+			}
+			hi := lo + 2*s
+			probe := func(k int) {
+				ops = append(ops, "K", fmt.Sprintf("G %d", k), fmt.Sprintf("R %d", k), fmt.Sprintf("F %d", k), fmt.Sprintf("Sel %d", s/2), "Sz", "H")
+			}
+			switch (s + variant) % 3 {
+			case 0: // DeleteMin run, then Puts below the minimum
+				for i := 0; i < min(s, 12); i++ {
+					ops = append(ops, "Dm")
+					probe(lo + 2*i)
+				}
+				for i := 1; i <= 6; i++ {
+					ops = append(ops, fmt.Sprintf("P %d %d", lo-2*i, i))
+					probe(lo - 2*i)
+				}
+			case 1: // Puts below the minimum, then DeleteMax / DeleteMin
+				for i := 1; i <= 8; i++ {
+					ops = append(ops, fmt.Sprintf("P %d %d", lo-2*i, i))
+					probe(lo - 2*i)
+				}
+				for i := 0; i < min(s, 6); i++ {
+					ops = append(ops, "DM", "K", "Dm")
+					probe(hi)
+				}
+			default: // Delete in the upper half, then Put in the lower half (odd keys)
+				for i := 0; i < min(s/2+1, 8); i++ {
+					k := hi - 2 - 2*i
+					ops = append(ops, fmt.Sprintf("D %d", k))
+					probe(k)
+				}
+				for i := 0; i < 8; i++ {
+					k := lo + 1 + 2*i
+					ops = append(ops, fmt.Sprintf("P %d %d", k, i))
+					probe(k)
+				}
+			}
+			ops = append(ops, "K", "All", "T 7", "Rg -20 400")
+			cmp := cmps[n%len(cmps)]
+			n++
+			for _, impl := range impls {
+				runCase(w, impl, cmp, ops)
+			}
+		}
+	}
+}
+
+// scale: a few hundred keys inserted in sorted / reverse / zig-zag order (a degenerate BST), then
+// every kind of query near both ends and in the middle, under the watchdog.
+func scale(w *tr.W, r *rng.R, sizes []int, cmps []string) {
+	n := 0
+	for _, sz := range sizes {
+		for kind := 0; kind < 4; kind++ {
+			var ops []string
+			for i, k := range insertionOrder(r, kind, sz) {
+				ops = append(ops, fmt.Sprintf("P %d %d", 2*k, 2*k+i%3))
+			}
+			ops = append(ops, "Sz", "H", "Mn", "Mx")
+			for _, k := range []int{-1, 0, 1, 2, sz - 1, sz, sz + 1, 2*sz - 4, 2*sz - 3, 2*sz - 2, 2*sz - 1, 2 * sz} {
+				ops = append(ops, fmt.Sprintf("F %d", k), fmt.Sprintf("C %d", k), fmt.Sprintf("G %d", k), fmt.Sprintf("R %d", k))
+			}
+			for _, i := range []int{-1, 0, 1, sz / 2, sz - 2, sz - 1, sz} {
+				ops = append(ops, fmt.Sprintf("Sel %d", i))
+			}
+			ops = append(ops, fmt.Sprintf("Rg %d %d", 2*sz-7, 2*sz+3), fmt.Sprintf("RS %d %d", 2*sz-7, 2*sz+3), "Rg -3 5", fmt.Sprintf("RS 3 %d", 2*sz-3),
+				"TS 6 3", "TS 7 3", "AS 2", "Any 1", "Allm 1", "Fm 3", fmt.Sprintf("Sm %d", 1000+6), "Dm", "DM", fmt.Sprintf("D %d", sz),
+				fmt.Sprintf("F %d", 2*sz-1), "C 1", "Mn", "Mx", "Sz")
+			cmp := cmps[n%len(cmps)]
+			n++
+			for _, impl := range impls {
+				runCase(w, impl, cmp, ops)
+			}
 		}
 	}
 }
@@ -866,7 +1168,7 @@ func shapes(w *tr.W, r *rng.R, sizes []int, cmps []string) {
 }
 
 func main() {
-	mode := flag.String("mode", "exhaustive", "exhaustive|interleave|random|churn|shapes")
+	mode := flag.String("mode", "exhaustive", "exhaustive|interleave|scale|selections|avlshapes|random|churn|shapes")
 	tier := flag.String("tier", "quick", "quick|thorough")
 	full := flag.Bool("full", true, "full query battery on every new state (exhaustive mode)")
 	replay := flag.String("replay", "", "case file to re-execute")
@@ -874,7 +1176,8 @@ func main() {
 	w := tr.NewW()
 	defer w.Flush()
 	if *replay != "" {
-		cpuDeadline = 4 * time.Second // single small cases: a spinning operation is evident quickly
+		// single small cases (milliseconds of CPU on the unchanged tree): a spinning operation is evident quickly
+		cpuDeadline, firstWait = 600*time.Millisecond, 100*time.Millisecond
 		cs, err := tr.ReadCases(*replay)
 		if err != nil {
 			fmt.Fprintln(os.Stderr, err)
@@ -904,6 +1207,26 @@ func main() {
 			exhaustive(w, append(ad, "diff3"), []int{2, 4, 6, 8}, probes, 4, *full)
 			exhaustive(w, mag, []int{2, 4, 6}, probes, 5, *full)
 			exhaustive(w, []string{"half"}, []int{2, 3, 6}, probes, 3, *full)
+		}
+	case "avlshapes": // C15
+		if thorough {
+			avlShapes(w, []int{3, 4, 5, 6, 7, 8, 9}, 3, 1200, true, append(ad, mag...), []string{"AVL"})
+		} else {
+			avlShapes(w, []int{5, 7, 8}, 2, 300, false, []string{"asc", "rdiff"}, []string{"AVL"})
+		}
+	case "selections": // C01 and C15
+		r := rng.FromEnv(77)
+		if thorough {
+			selections(w, r, 200, all)
+		} else {
+			selections(w, r, 100, []string{"asc", "diff3", "desc"})
+		}
+	case "scale": // C01
+		r := rng.FromEnv(31)
+		if thorough {
+			scale(w, r, []int{150, 400, 1000}, append(ad, mag...))
+		} else {
+			scale(w, r, []int{120, 400}, []string{"asc", "rdiff"})
 		}
 	case "interleave":
 		probes := []int{1, 2, 4, 5, 6, 7}
